@@ -42,9 +42,16 @@ def panic_kind_of_call(t):
 def panic_sites(body):
     """[(kind, bb, loc, text)] of panic-capable constructs in live, non-cleanup blocks"""
     out = []
+    spliced = set()
     for bb in sorted(body.live_blocks()):
         if body.is_cleanup(bb):
             continue
+        # one construct of a helper that was spliced into several call sites is one construct
+        tag = body.blocks[bb].get('inlined_bb')
+        if tag is not None:
+            if tag in spliced:
+                continue
+            spliced.add(tag)
         t = body.term(bb)
         if t['k'] == 'assert':
             out.append((('assert:' + t['kind']), bb, short_loc(t.get('span')), t['kind']))
